@@ -156,16 +156,20 @@ pub fn interpret(data: &Rcvar, node: &Ast, ctx: &mut Context<'_>) -> SearchResul
             }
             #[cfg(feature = "verif-hooks")]
             let _verif_call = crate::verif::CallGuard::enter(offset, name);
-            // Reset the offset so that it points to the function being evaluated.
+            // Reset the offset so that it points to the function being evaluated,
+            // and restore the caller's offset once the call returns.
+            let caller_offset = ctx.offset;
             ctx.offset = offset;
-            match ctx.runtime.get_function(name) {
+            let result = match ctx.runtime.get_function(name) {
                 Some(f) => f.evaluate(&fn_args, ctx),
                 None => {
                     let reason =
                         ErrorReason::Runtime(RuntimeError::UnknownFunction(name.to_owned()));
                     Err(JmespathError::from_ctx(ctx, reason))
                 }
-            }
+            };
+            ctx.offset = caller_offset;
+            result
         }
         Ast::Expref { ref ast, .. } => Ok(Rcvar::new(Variable::Expref(*ast.clone()))),
         Ast::Slice {
